@@ -23,6 +23,14 @@
 (*                  C3  commit: with_merge on whatever version is current  *)
 (*                          then (compaction state + version write), show, *)
 (*                          maintenance                                    *)
+(*  compactor  "c2" E1-E3  a second, concurrent compaction (as a leveled    *)
+(*                      strategy issues them): every table of L0 into L1;  *)
+(*                      same three critical sections as C1-C3.  With       *)
+(*                      CScripted the first compactor is an ordinary       *)
+(*                      compaction too (every table that is not hidden     *)
+(*                      into the last level) and the two overlap in time;  *)
+(*                      a major compaction excludes every other one        *)
+(*                      (major_compaction_lock)                            *)
 (*  clearer    "k"  K   clear (version write lock only)                    *)
 (*  dropper    "d"  D   drop_range(..) over everything: takes the major     *)
 (*                      compaction lock exclusively, so it runs only while *)
@@ -47,7 +55,9 @@ CONSTANTS CKeys, CVals,      \* keys / values
           NRotates,          \* rotations by the rotator
           Procs,             \* subset of {"w", "f", "c", "k", "r", "d"}
           Guard287,          \* TRUE: register_tables checks that the memtables still exist
-          SplitW             \* TRUE: allocating the seqno and inserting are two steps
+          SplitW,            \* TRUE: allocating the seqno and inserting are two steps
+          CScripted          \* TRUE: "c" is an ordinary compaction (concurrent with "c2"),
+                             \* FALSE: a major compaction (exclusive)
 
 VARIABLES st, A, pc, loc, hid, sched,
           pub                \* what the writer has published: 1 + seqno of its last finished write
@@ -61,7 +71,7 @@ CInit ==
     /\ st = InitState
     /\ A = AInit
     /\ pc = [p \in Procs |-> CASE p = "w" -> "W" [] p = "f" -> "F0" [] p = "c" -> "C1" [] p = "k" -> "K"
-                                [] p = "r" -> "R" [] p = "d" -> "D"]
+                                [] p = "r" -> "R" [] p = "d" -> "D" [] p = "c2" -> "E1"]
     /\ loc = [p \in Procs |-> [n |-> 0]]
     /\ hid = {}
     /\ sched = <<>>
@@ -156,10 +166,14 @@ F3 ==
 
 \* ---------------------------------------------------------------- compactor
 \* C1: a major-style choice: every table of the current version into the last level
+OtherAtRest(p) == p \in Procs => pc[p] \in {"C1", "E1"}
+
 C1 ==
     /\ "c" \in Procs /\ pc["c"] = "C1" /\ loc["c"].n < NCompactions
-    /\ LET ids == AllIds(Latest(st).lv) IN
+    /\ CScripted \/ OtherAtRest("c2")
+    /\ LET ids == IF CScripted THEN AllIds(Latest(st).lv) \ hid ELSE AllIds(Latest(st).lv) IN
        /\ ids # {} /\ ids \cap hid = {}
+       /\ CScripted => LegalMerge(st, ids, LastLevel)
        /\ hid' = hid \cup ids
        /\ loc' = [loc EXCEPT !["c"] = [n |-> @.n, ids |-> ids, inp |-> MergeInput(st, ids)]]
     /\ pc' = [pc EXCEPT !["c"] = "C2"]
@@ -190,6 +204,45 @@ C3 ==
     /\ Sched("c", "commit", 0)
     /\ UNCHANGED A
 
+\* ---------------------------------------------------------------- second compactor
+L0Ids == UNION {Range(run) : run \in Range(Latest(st).lv[1])}
+
+E1 ==
+    /\ "c2" \in Procs /\ pc["c2"] = "E1" /\ loc["c2"].n < NCompactions
+    /\ CScripted \/ OtherAtRest("c")
+    /\ LET ids == L0Ids IN
+       /\ ids # {} /\ ids \cap hid = {}
+       /\ LegalMerge(st, ids, 1)
+       /\ hid' = hid \cup ids
+       /\ loc' = [loc EXCEPT !["c2"] = [n |-> @.n, ids |-> ids, inp |-> MergeInput(st, ids)]]
+    /\ pc' = [pc EXCEPT !["c2"] = "E2"]
+    /\ Sched("c2", "choose", 0)
+    /\ UNCHANGED <<st, A>>
+
+E2 ==
+    /\ "c2" \in Procs /\ pc["c2"] = "E2"
+    /\ LET out == CompactionStream(loc["c2"].inp, 0, FALSE, NoFilter).out IN
+       /\ st' = [st EXCEPT !.tblId = @ + 1]
+       /\ loc' = [loc EXCEPT !["c2"] = [@ EXCEPT !.n = @] @@ [out |-> out, tid |-> st.tblId]]
+    /\ pc' = [pc EXCEPT !["c2"] = "E3"]
+    /\ Sched("c2", "merge", 0)
+    /\ UNCHANGED <<A, hid>>
+
+E3 ==
+    /\ "c2" \in Procs /\ pc["c2"] = "E3"
+    /\ LET sv  == Latest(st)
+           l   == loc["c2"]
+           new == IF l.out = <<>> THEN <<>> ELSE <<l.tid>>
+           T2  == IF l.out = <<>> THEN st.tbl ELSE st.tbl @@ (l.tid :> [e |-> l.out, g |-> 0])
+           nsv == [sv EXCEPT !.lv = WithMerge(sv.lv, l.ids, new, 1, T2)]
+           s1  == [st EXCEPT !.tbl = T2, !.seq = @ + 1]
+       IN st' = Collect(Install(s1, nsv, st.seq))
+    /\ hid' = hid \ loc["c2"].ids
+    /\ pc' = [pc EXCEPT !["c2"] = "E1"]
+    /\ loc' = [loc EXCEPT !["c2"] = [n |-> @.n + 1]]
+    /\ Sched("c2", "commit", 0)
+    /\ UNCHANGED A
+
 \* ---------------------------------------------------------------- clear
 K ==
     /\ "k" \in Procs /\ pc["k"] = "K" /\ loc["k"].n = 0
@@ -215,7 +268,7 @@ R ==
 \* major_compaction_lock.write(): waits for the compactor to be at rest, excludes it meanwhile
 D ==
     /\ "d" \in Procs /\ pc["d"] = "D" /\ loc["d"].n = 0
-    /\ ("c" \in Procs => pc["c"] = "C1")
+    /\ OtherAtRest("c") /\ OtherAtRest("c2")
     /\ st' = OpDropRange(st, FullBounds)
     /\ A' = ADropRange(A, CKeys, st.seq)
     /\ loc' = [loc EXCEPT !["d"].n = 1]
@@ -223,7 +276,7 @@ D ==
     /\ UNCHANGED <<pc, hid>>
 
 CNext == W \/ W0 \/ W1
-         \/ ((F0 \/ F1 \/ F2 \/ F3 \/ C1 \/ C2 \/ C3 \/ K \/ R \/ D) /\ UNCHANGED pub)
+         \/ ((F0 \/ F1 \/ F2 \/ F3 \/ C1 \/ C2 \/ C3 \/ E1 \/ E2 \/ E3 \/ K \/ R \/ D) /\ UNCHANGED pub)
 CSpec == CInit /\ [][CNext]_cvars
 
 -----------------------------------------------------------------------------
@@ -234,7 +287,7 @@ CSpec == CInit /\ [][CNext]_cvars
 ConcReadsRefine == PReadsRefine(st, A, CKeys)
 ConcScansRefine == PScansRefine(st, A)
 ConcStructure   == PStructureSound(st)
-HiddenAtRest    == ("c" \in Procs /\ pc["c"] = "C1") => hid = {}
+HiddenAtRest    == (OtherAtRest("c") /\ OtherAtRest("c2")) => hid = {}
 \* reads at the snapshot the writer has published (known finding C06-late-insert excluded)
 ConcPubReads ==
     pub = 0 \/ \A k \in CKeys \ LateInsertKeys(st, pub) :
